@@ -158,6 +158,11 @@ class SyncCrazyflie:
         self._is_link_open = False
         if self._disconnect_event:
             self._disconnect_event.set()
+        if self._connect_event:
+            # The link went away before the connection was set up: wake up
+            # open_link(), which reports the failure
+            self._error_message = 'Disconnected from %s before the connection was established' % link_uri
+            self._connect_event.set()
 
     def _all_params_updated(self, link_uri):
         self._params_updated_event.set()
